@@ -30,6 +30,11 @@ FEAS = "infrastructure_constraints_feasible"
 _canon = canon
 
 
+def xp(fl, node, text):
+    """canonical form of the source text `text` expanded at `node` (reference patterns are expanded like the code they are compared with)"""
+    return canon(fl.expand(ast.parse(text, mode="eval").body, node))
+
+
 def _match(s, i):
     """index just past the parenthesis group opening at s[i] == '('"""
     d = 0
@@ -213,19 +218,38 @@ def rule_bounds(ck):
         need = {"session.max_rates[0]", "infrastructure.max_pilot[infrastructure.get_station_index(session.station_id)]", "self.interface.remaining_amp_periods(session)"}
         ck.require(got is not None and need <= got, "C07.R2", rr, n.stmt, ok="ub = min(session max, EVSE max pilot, remaining amp-periods)",
                    bad=f"round robin's upper bound covers {sorted(got) if got else None}; needs {sorted(need)}", sink="rr:ub")
-    # the two level filters: stores allowable_pilots[i] = allowable_pilots[i][<mask>] with masks lb <= levels and levels <= ub, unconditional in the loop
+    # the two level filters: boolean masks applied to the station's level list (lb <= levels, levels <= ub), unconditional in the set-up
+    # loop, whether written as two re-assignments, one `&` mask, through a temporary, or with np.logical_and
+    def mask_conjuncts(m):
+        if isinstance(m, ast.BinOp) and isinstance(m.op, ast.BitAnd):
+            return mask_conjuncts(m.left) + mask_conjuncts(m.right)
+        if isinstance(m, ast.Call) and call_name(m) == "logical_and":
+            return [x for a_ in m.args for x in mask_conjuncts(a_)]
+        if isinstance(m, ast.Compare):
+            out, l = [], m.left
+            for op, r_ in zip(m.ops, m.comparators):
+                out.append(ast.Compare(left=l, ops=[op], comparators=[r_]))
+                l = r_
+            return out
+        return []
     filt = {"lb": [], "ub": []}
+    setup = [n for n in cfg.nodes if n.kind == "for"]
     for n in cfg.nodes:
-        if n.kind == "stmt" and isinstance(n.stmt, ast.Assign) and isinstance(n.stmt.targets[0], ast.Subscript) and dotted(n.stmt.targets[0].value) == "allowable_pilots":
-            v = n.stmt.value
-            if isinstance(v, ast.Subscript) and isinstance(v.slice, ast.Compare) and canon(v.value) == canon(n.stmt.targets[0]):
-                cn = cmp_norm(v.slice)
-                if cn and cn[1] == "<=":
-                    l, r = canon(rl.expand(cn[0], n)), canon(rl.expand(cn[2], n))
-                    if canon(cn[2]) == canon(v.value) and l == "max(0, session.min_rates[0])":
-                        filt["lb"].append(n)
-                    if canon(cn[0]) == canon(v.value) and r.startswith("min(") and "remaining_amp_periods" in r:
-                        filt["ub"].append(n)
+        if n.kind != "stmt" or not isinstance(n.stmt, (ast.Assign, ast.AnnAssign)) or getattr(n.stmt, "value", None) is None:
+            continue
+        for sub in [x for x in ast.walk(n.stmt.value) if isinstance(x, ast.Subscript)]:
+            cj = mask_conjuncts(sub.slice)
+            if not cj or "allowable_pilots" not in canon(rl.expand(sub.value, n)):
+                continue
+            for cmp_ in cj:
+                cn = cmp_norm(rl.expand(cmp_, n))
+                if not cn or cn[1] != "<=":
+                    continue
+                l, r_ = canon(cn[0]), canon(cn[2])
+                if l == "max(0, session.min_rates[0])" and "allowable_pilots" in r_:
+                    filt["lb"].append(n)
+                if "allowable_pilots" in l and r_.startswith("min(") and "remaining_amp_periods" in r_ and "max_rates[0]" in r_:
+                    filt["ub"].append(n)
     for k, nodes in filt.items():
         ck.require(len(nodes) >= 1, "C07.R2", rr, f"levels filtered by {k}", ok=f"levels restricted by the {k}", bad=f"round robin does not restrict the level list by the session's {k}",
                    sink=f"rr:filter:{k}:exists")
@@ -233,6 +257,15 @@ def rule_bounds(ck):
             conds = [t for t, lab in cfg.edges_dominating(n) if t.kind == "test"]
             ck.require(not conds, "C07.R2", rr, n.stmt, ok="applied to every EVSE type", bad=f"the {k} filter only runs under `{src(conds[0].expr, 50) if conds else ''}`: "
                        f"other EVSEs keep levels outside the session's bounds (over-delivery / invalid pilot)", sink=f"rr:filter:{k}:unconditional")
+            # the filtered list is what the station keeps: it reaches a store into allowable_pilots[i]
+            tgt = n.stmt.targets[0] if isinstance(n.stmt, ast.Assign) else n.stmt.target
+            reaches = isinstance(tgt, ast.Subscript) and dotted(tgt.value) == "allowable_pilots"
+            if not reaches and isinstance(tgt, ast.Name):
+                for m in cfg.nodes:
+                    if m.kind == "stmt" and isinstance(m.stmt, ast.Assign) and isinstance(m.stmt.targets[0], ast.Subscript) and dotted(m.stmt.targets[0].value) == "allowable_pilots" \
+                            and n in rl.defs_at(m, tgt.id) and any(isinstance(x, ast.Name) and x.id == tgt.id for x in ast.walk(m.stmt.value)):
+                        reaches = True
+            ck.require(reaches, "C07.R2", rr, n.stmt, ok="the filtered levels are stored back for the station", bad="the filtered level list is never stored back into allowable_pilots", sink=f"rr:filter:{k}:stored")
     # continuous grid spans [min rate, max rate]
     grids = [c for n, c in calls_in(rl, "arange")]
     for c in grids:
@@ -428,30 +461,40 @@ def rule_tentative(ck):
     for r in [n for n in dcfg.nodes if n.kind == "return"]:
         ck.require(canon(r.expr) == "new_schedule[station_index]", "C07.R3", df, r.stmt, ok="returns the last candidate written (feasible or 0)", bad="the discrete search does not return new_schedule[station_index]",
                    sink="discrete:return")
-    # round robin tentative / revert
+    # round robin tentative / revert (facts and expanded values: robust to temporaries, guard clauses and inverted tests)
     rr = repo.fn("RoundRobin.round_robin")
     rl = flow_of(rr)
     rcfg = rl.cfg
     wh = [n for n in rcfg.nodes if n.kind == "test" and isinstance(n.stmt, ast.While)]
     if len(wh) != 1:
         raise AnalysisError("round_robin: expected one while loop")
-    body = rcfg.loop_body_nodes(wh[0])
+    body = rcfg.loop_region(wh[0])
     sts = [n for n in body if n.kind == "stmt" and isinstance(n.stmt, ast.Assign) and isinstance(n.stmt.targets[0], ast.Subscript) and dotted(n.stmt.targets[0].value) == "schedule"]
-    tent = [n for n in sts if "+ 1" in canon(n.stmt.value)]
-    rev = [n for n in sts if n not in tent]
-    ck.require(len(tent) == 1 and len(rev) >= 1, "C07.R3", rr, "tentative level / revert", ok="tentative raise and revert present", bad=f"round robin has {len(tent)} tentative and {len(rev)} reverting stores", sink="rr:tentative-revert")
+    val = {n: canon(rl.expand(n.stmt.value, n)) for n in sts}
+    tent = [n for n in sts if val[n] == xp(rl, n, "allowable_pilots[i][rate_idx[i] + 1]")]
+    rev = [n for n in sts if val[n] == xp(rl, n, "allowable_pilots[i][rate_idx[i]]")]
+    other = [n for n in sts if n not in tent and n not in rev]
+    ck.require(len(tent) == 1 and len(rev) >= 1 and not other, "C07.R3", rr, other[0].stmt if other else "tentative level / revert", ok="tentative raise to the next level and revert to the current one",
+               bad=f"round robin stores {[val[n][:40] for n in other] or 'no'} into the schedule besides {len(tent)} tentative next-level and {len(rev)} reverting stores", sink="rr:tentative-revert")
+
+    def feas_fact(n):
+        """truth value of the feasibility check on the edges dominating n inside the loop (None if not dominated by one)"""
+        out = []
+        for a_, t_ in facts_at(rl, n):
+            if is_feasible_call(a_) and any(tn in body for tn, _ in rcfg.edges_dominating(n) if tn.kind == "test" and any(x is a_ for x in ast.walk(tn.expr))):
+                out.append(t_)
+        return out
     for t in tent:
-        ck.require(canon(t.stmt.value) == "allowable_pilots[i][rate_idx[i] + 1]", "C07.R3", rr, t.stmt, ok="tries exactly the next level", bad="the tentative value is not the next level of this station", sink="rr:tentative-value")
-        checks = [n for n in body if n.kind == "test" and is_feasible_call(n.expr) and rcfg.dominates(t, n)]
+        checks = [n for n in body if n.kind == "test" and any(is_feasible_call(x) for x in ast.walk(n.expr)) and rcfg.dominates(t, n)]
         ck.require(len(checks) == 1, "C07.R3", rr, t.stmt, ok="followed by a feasibility check", bad="the tentative level is not followed by exactly one feasibility check", sink="rr:tentative-checked")
         for cnode in checks:
-            fe = [s for s in cnode.succ if s.kind == "edge" and s.label is False][0]
-            reverts = [n for n in rev if rcfg.dominates(fe, n) and canon(n.stmt.value) == "allowable_pilots[i][rate_idx[i]]" and canon(n.stmt.targets[0].slice) == canon(t.stmt.targets[0].slice)]
+            neg = isinstance(cnode.expr, ast.UnaryOp) and isinstance(cnode.expr.op, ast.Not)
+            fe = [s_ for s_ in cnode.succ if s_.kind == "edge" and s_.label is (True if neg else False)][0]
+            reverts = [n for n in rev if rcfg.dominates(fe, n) and canon(rl.expand(n.stmt.targets[0].slice, n)) == canon(rl.expand(t.stmt.targets[0].slice, t))]
             ck.require(bool(reverts) and wh[0] not in rcfg.reach(fe, avoid=set(reverts)), "C07.R3", rr, cnode.expr, ok="infeasible: the previous level is restored on every path",
                        bad="on the infeasible edge the schedule is not restored to the station's previous level", sink="rr:revert")
     for n in rev:
-        fs = [lab for tnode, lab in rcfg.edges_dominating(n) if tnode.kind == "test" and tnode in body and is_feasible_call(tnode.expr)]
-        ck.require(fs == [False], "C07.R3", rr, n.stmt, ok="revert only on the infeasible edge", bad="a store of the current level outside the infeasible edge", sink="rr:revert-edge")
+        ck.require(feas_fact(n) == [False], "C07.R3", rr, n.stmt, ok="revert only on the infeasible edge", bad="a store of the current level outside the infeasible edge", sink="rr:revert-edge")
 
 
 def rule_output(ck):
